@@ -129,7 +129,9 @@ class ComparamInstance:
             return None
 
         result = value_list[idx]
-        if result is None and isinstance(subparam, (Comparam, ComplexComparam)):
+        # sub-values which are not specified are represented by empty
+        # SIMPLE-VALUE tags, i.e., they are empty strings after parsing
+        if (result is None or result == "") and isinstance(subparam, (Comparam, ComplexComparam)):
             result = subparam.physical_default_value
         if not isinstance(result, str):
             odxraise()
